@@ -224,4 +224,6 @@ FUNCTIONS = [G + n for n in ("cartesienne", "projection_droite", "proj_segment",
 ASSUMPTIONS = ["segments are non-degenerate (proj_polyligne skips segments of L1 length < 1e-16; a polyline made only of such "
                "segments leaves xproj unbound: outside the contract)",
                "math.sqrt: r >= 0 and r*r == x (trusted axiom)",
+               "proj_polyligne and __projOnTrack are verified against the CONTRACT of proj_segment; that contract's [vertical] obligations fail on the "
+               "pinned tree (known finding C20-vertical-segment), so their statements hold for polylines without vertical segments",
                "__projOnTrack: the polyline has at least two fixes with numeric coordinates and at least one non-skipped segment; squared distances below 1e600"]
